@@ -13,20 +13,38 @@ use std::convert::Infallible;
 use std::task::{Context, Poll};
 use tower::{Layer, Service, ServiceExt};
 
-#[derive(Clone)]
-struct Tagged(u64);
+/// The registered services hold tower's contract against the router: `call` only after `poll_ready`
+/// on the same value (readiness is not inherited by a clone). A service reached without having been
+/// polled ready answers as service 998, which no specification outcome names.
+struct TaggedSvc {
+    id: u64,
+    ready: bool,
+}
 
-impl Service<Request<Bytes>> for Tagged {
+#[allow(non_snake_case)]
+fn Tagged(id: u64) -> TaggedSvc {
+    TaggedSvc { id, ready: false }
+}
+
+impl Clone for TaggedSvc {
+    fn clone(&self) -> Self {
+        TaggedSvc { id: self.id, ready: false }
+    }
+}
+
+impl Service<Request<Bytes>> for TaggedSvc {
     type Response = Response<Bytes>;
     type Error = Infallible;
     type Future = std::future::Ready<Result<Response<Bytes>, Infallible>>;
     fn poll_ready(&mut self, _: &mut Context<'_>) -> Poll<Result<(), Infallible>> {
+        self.ready = true;
         Poll::Ready(Ok(()))
     }
     fn call(&mut self, req: Request<Bytes>) -> Self::Future {
         let trace = req.headers().get("trace").cloned().unwrap_or_default();
+        let id = if std::mem::take(&mut self.ready) { self.id } else { 998 };
         std::future::ready(Ok(Response::new(Bytes::new())
-            .with_header("svc", self.0.to_string())
+            .with_header("svc", id.to_string())
             .with_header("layers", trace)))
     }
 }
@@ -36,7 +54,7 @@ impl Service<Request<Bytes>> for Tagged {
 macro_rules! rpc_service {
     ($t:ident, $name:literal) => {
         #[derive(Clone)]
-        struct $t(Tagged);
+        struct $t(TaggedSvc);
         impl anemo::rpc::RpcService for $t {
             const SERVICE_NAME: &'static str = $name;
         }
@@ -111,7 +129,10 @@ fn sub(k: u64) -> Router {
     }
 }
 
-fn build(ops: &[Value]) -> Router {
+/// `prebuilt`: the routers that get merged in exist before the receiving router gets its first route
+/// (a merge result does not depend on which of the two routers was put together first).
+fn build(ops: &[Value], prebuilt: bool) -> Router {
+    let subs = if prebuilt { Some([sub(1), sub(2)]) } else { None };
     let mut r = Router::new();
     for (i, op) in ops.iter().enumerate() {
         r = match op["op"].as_str().unwrap() {
@@ -119,7 +140,13 @@ fn build(ops: &[Value]) -> Router {
             "route" if op["wild"] == true && op["prefix"] == "/t/" => r.add_rpc_service(RpcT(Tagged(i as u64 + 1))),
             "route" => r.route(op["pat"].as_str().unwrap(), Tagged(i as u64 + 1)),
             "layer" => r.route_layer(MarkLayer(op["id"].as_u64().unwrap())),
-            "merge" => r.merge(sub(op["sub"].as_u64().unwrap())),
+            "merge" => {
+                let k = op["sub"].as_u64().unwrap();
+                r.merge(match &subs {
+                    Some(s) => s[k as usize - 1].clone(),
+                    None => sub(k),
+                })
+            }
             "mergefork" => {
                 let fork = r.clone().route_layer(MarkLayer(op["id"].as_u64().unwrap()));
                 r.merge(fork)
@@ -153,15 +180,15 @@ pub fn replay(a: &Args) -> i32 {
     std::panic::set_hook(Box::new(|_| {}));
     let mut mismatches = Vec::new();
     let mut evaluations = 0u64;
-    for (bi, b) in behaviours.iter().enumerate() {
+    for (bi, prebuilt, b) in behaviours.iter().enumerate().flat_map(|(bi, b)| [(bi, false, b), (bi, true, b)]) {
         let ops = b["ops"].as_array().unwrap().clone();
         let want_panic = b["panicked"].as_bool().unwrap();
-        let built = std::panic::catch_unwind(std::panic::AssertUnwindSafe(|| build(&ops)));
+        let built = std::panic::catch_unwind(std::panic::AssertUnwindSafe(|| build(&ops, prebuilt)));
         evaluations += 1;
         match (built, want_panic) {
             (Err(_), true) => {}
-            (Err(_), false) => mismatches.push(json!({"behaviour": bi, "what": "building the router panicked, the specification has no conflict", "ops": ops})),
-            (Ok(_), true) => mismatches.push(json!({"behaviour": bi, "what": "conflicting insert did not panic", "ops": ops})),
+            (Err(_), false) => mismatches.push(json!({"behaviour": bi, "merged_routers_built_first": prebuilt, "what": "building the router panicked, the specification has no conflict", "ops": ops})),
+            (Ok(_), true) => mismatches.push(json!({"behaviour": bi, "merged_routers_built_first": prebuilt, "what": "conflicting insert did not panic", "ops": ops})),
             (Ok(router), false) => {
                 for (path, exp) in b["expect"].as_object().unwrap() {
                     evaluations += 1;
@@ -172,10 +199,10 @@ pub fn replay(a: &Args) -> i32 {
                         Ok((svc, layers)) if svc == want_svc && layers == want_layers => {}
                         Ok((svc, layers)) => {
                             if mismatches.len() < 8 {
-                                mismatches.push(json!({"behaviour": bi, "what": format!("path {path:?}: reached service {svc} through layers [{layers}], specification says service {want_svc} through [{want_layers}]"), "ops": ops}));
+                                mismatches.push(json!({"behaviour": bi, "merged_routers_built_first": prebuilt, "what": format!("path {path:?}: reached service {svc} through layers [{layers}], specification says service {want_svc} through [{want_layers}]"), "ops": ops}));
                             }
                         }
-                        Err(_) => mismatches.push(json!({"behaviour": bi, "what": format!("routing panicked on {path:?}"), "ops": ops})),
+                        Err(_) => mismatches.push(json!({"behaviour": bi, "merged_routers_built_first": prebuilt, "what": format!("routing panicked on {path:?}"), "ops": ops})),
                     }
                 }
             }
